@@ -16,7 +16,7 @@ sys.path.insert(0, ROOT)
 def show(x, verbose=False):
     print(f"functions under contract: {x['functions']}  (with at least one checked path: {x.get('functions_checked')})")
     print(f"paths ending in return/raise: {x['paths_in_scope']}   checked natively: {x['paths_checked']}   "
-          f"agree: {x['agree']}   mismatches: {len(x['mismatches'])}   skipped: {sum(x['skipped'].values())}"
+          f"(witnesses run: {x.get('witnesses_run')})   agree: {x['agree']}   mismatches: {len(x['mismatches'])}   skipped: {sum(x['skipped'].values())}"
           + (f"   enforced(exit 3): {x['enforced']}" if "enforced" in x else ""))
     if x["skipped"]:
         print("skipped, by reason:")
